@@ -58,6 +58,7 @@ def run(repo, rep, tier):
     r6 = rep.rule('C19.R6', 'the password does not flow to observers')
     statistics_reentry_rule(repo, rep)
     staged_args_rule(repo, rep)
+    record_staged_is_read_only(repo, rep)
     from .c02 import operation_envelopes_agree
     operation_envelopes_agree(repo, rep, 'C19.R10', 'finally')
     ops = operations(repo)
@@ -729,3 +730,45 @@ def staged_args_rule(repo, rep):
                                       'nothing'))
     if r11.sites < 30:
         raise AnalysisError('C19.R11: only %d operations' % r11.sites)
+
+
+def record_staged_is_read_only(repo, rep):
+    """C19.R12: record_staged() only reads what was staged.  Operations nest
+    on one connection (a mock provider runs ReferenceNames on the same
+    connection while the client's DeleteInstance is in progress), so
+    record_staged() runs once for the inner and once for the outer
+    operation; if it clears the staged fields, the outer call records None
+    values and TestClientRecorder.record() raises TypeError in the
+    operation's finally clause - a successful operation fails only because
+    a recorder is enabled."""
+    r12 = rep.rule('C19.R12', 'record_staged() does not change the staged '
+                   'state')
+    n = 0
+    for c in repo.module(REC).classes.values():
+        f = c.methods.get('record_staged')
+        if f is None:
+            continue
+        n += 1
+        r12.sites += 1
+        r12.functions.add(f.fq)
+        bad = []
+        for x in walk_no_nested(f.node):
+            if isinstance(x, ast.Attribute) and \
+                    isinstance(x.ctx, (ast.Store, ast.Del)) and \
+                    norm(x).startswith('self._'):
+                bad.append(x)
+            if isinstance(x, ast.Call) and dotted(x.func) in (
+                    'self.reset', 'self.__init__'):
+                bad.append(x)
+        r12.ob(not bad, f.qualname)
+        for x in bad[:1]:
+            rep.finding(r12, f.qualname, norm(x, 50), 'clears-staged-state',
+                        REC, x.lineno,
+                        '%s changes the staged fields: when operations nest '
+                        '(the mock subscription providers call the '
+                        'connection while an operation is in progress) the '
+                        'outer operation\'s record_staged() then sees None '
+                        'and record() raises TypeError from the finally '
+                        'clause of a successful operation' % norm(x, 50))
+    if n < 2:
+        raise AnalysisError('C19.R12: only %d record_staged() found' % n)
